@@ -555,6 +555,33 @@ func checkC16(tier string) {
 		if len(fired) > 0 && c.markDistinct("sc:"+sc.Hash()) {
 			c.count("distinct_nontrivial", 1)
 		}
+		// reach probes
+		{
+			ws := res.Writes()
+			for j, w := range ws {
+				if w.Fault != "" && !w.Ok && j >= 1 {
+					c.count("probe:write_fault_hit_second_or_later_output", 1)
+					break
+				}
+			}
+			if res.Exit != 0 {
+				okWrites := 0
+				for _, w := range ws {
+					if w.Ok {
+						okWrites++
+					}
+				}
+				if okWrites > 0 {
+					c.count("probe:rejected_after_earlier_outputs_were_written", 1)
+				}
+				if strings.Contains(sc.Note, "|stale") {
+					c.count("probe:rejected_with_stale_output_present", 1)
+				}
+			}
+			if len(fired) >= 2 {
+				c.count("probe:two_or_more_fault_kinds_fired_in_one_run", 1)
+			}
+		}
 		if res.Exit == 0 {
 			c.count("fault_run_exit0", 1)
 		} else {
